@@ -45,6 +45,8 @@ def run(ctx):
     rep.rule("C18.R4", "one scalar prox parameter per vector-valued friction law (Coulomb direction)", 4)
     rep.rule("C18.R3", "active-set restriction of velocity-level normal percussions", 3)
     rep.rule("C18.R5", "local normal/friction connectivity of the active set (index typing in compute_I_F)", 4)
+    rep.rule("C18.R10", "velocity-level schemes: the active set is a function of the gap alone - every CLOSED contact takes part in the complementarity problem; no velocity-dependent pre-filter", 2)
+    active_set_is_positional(ctx)
     rep.rule("C18.R6", "one evaluation point (t, q) for all gap-rate terms of a velocity-level Signorini update", 3)
     nf_link(ctx)
     rep.rule("C18.R9", "System.xi_N / xi_F are the linear form  rate(post) + e * rate(pre)  (no |.|, max or sign-dependent variant)", 2)
@@ -130,6 +132,51 @@ def run(ctx):
             else:
                 rep.bad("C18.R3", C, fn.name, "velocity-level normal percussions are not restricted to closed contacts (no active-set mask): an open contact "
                         "with approaching velocity would receive a percussion", f"{rel}:{fn.lineno}")
+
+
+def active_set_is_positional(ctx, rule="C18.R10"):
+    """Newton's impact law is a complementarity between P_N and xi_N for every closed contact; which of the closed contacts receive a
+    percussion is the OUTCOME of the coupled problem (a percussion at one contact can drive a neighbour on the same body into its obstacle).
+    The index set handed to the prox loop therefore has to contain every closed contact, i.e. be decided from the gap alone.  A filter on a
+    velocity ("already separating under the free velocity") is right for an isolated contact only."""
+    rep = ctx.rep
+    VEL = {"g_N_dot", "xi_N", "g_N_ddot", "gamma_F", "xi_F", "gamma_F_dot"}
+    for rel, q, target in (("cardillo/solver/moreau.py", "Moreau.step", "self.I_N"), ("cardillo/solver/dual_stormer_verlet.py", "DualStormerVerlet._step", "I_N")):
+        try:
+            fn = ctx.repo.get(rel, q)
+        except Exception:
+            fn = None
+        if fn is None:
+            rep.ok(rule, f"{rel}:{q}", "routine not found (no verdict)", verdict="unknown", trivial=True)
+            continue
+        C = f"{rel}:{q}"
+        binds = {}
+        for w in ast.walk(fn):
+            if isinstance(w, ast.Assign) and len(w.targets) == 1 and isinstance(w.targets[0], ast.Name):
+                binds.setdefault(w.targets[0].id, []).append(w.value)
+        defs = [w for w in ast.walk(fn) if isinstance(w, ast.Assign) and len(w.targets) == 1 and norm_src(w.targets[0]) == target]
+        if not defs:
+            rep.ok(rule, C, f"no definition of {target} (no verdict)", verdict="unknown", trivial=True)
+            continue
+        for d in defs:
+            calls, seen, work = set(), set(), [d.value]
+            while work:
+                e = work.pop()
+                for w in ast.walk(e):
+                    if isinstance(w, ast.Call) and isinstance(w.func, ast.Attribute) and norm_src(w.func.value) in ("self.system", "system"):
+                        calls.add(w.func.attr)
+                    elif isinstance(w, ast.Name) and w.id in binds and w.id not in seen:
+                        seen.add(w.id)
+                        work += binds[w.id]
+            vel = sorted(calls & VEL)
+            if vel:
+                rep.bad(rule, C, d, f"the active set `{target}` depends on the velocity-level quantit{'ies' if len(vel) > 1 else 'y'} {', '.join('system.' + v for v in vel)}: closed contacts that this filter "
+                        "drops never reach the prox loop, keep P_N = 0 and can end the step with xi_N < 0 when a percussion at a coupled contact pushes them in (Signorini's impact law "
+                        "violated without any warning)", f"{rel}:{d.lineno}")
+            elif "g_N" in calls:
+                rep.ok(rule, C, f"`{target}` is decided from system.g_N alone")
+            else:
+                rep.ok(rule, C, f"`{target}`: sources {sorted(calls)} not classified (no verdict)", verdict="unknown", trivial=True)
 
 
 POINT_METHODS = {"xi_N": ((0, 2), (1, 3)), "g_N_dot": ((0, 1),), "W_N": ((0, 1),), "g_N_dot_u": ((0, 1),)}
@@ -428,6 +475,9 @@ def nf_link(ctx, rule="C18.R5"):
             else:
                 rep.bad(rule, C, ds[0].ast if ds else ap.ast, f"the local normal index `{iN.id}` paired with a friction law is wrong in general: {why}; "
                         "the friction reservoir would be scaled by another contact's normal percussion", f"{rel}:{(ds[0] if ds else ap).lineno}")
+        elif isinstance(iN, ast.Constant) and iN.value is None:
+            # marker of a law kept for an INACTIVE contact (zero normal force); C16.R7 checks its guard and the consumers' `is None` test
+            rep.ok(rule, C, f"{norm_src(ap.ast)[:70]}: marker None = normal contact not active (zero reservoir)", trivial=True)
         else:
             rep.bad(rule, C, ap.ast, "local normal index of a friction law is neither empty nor a named search result", f"{rel}:{ap.lineno}")
         # ---- friction indices: arange(n) + counter, counter advanced with the extension of I_F
@@ -544,3 +594,11 @@ NEUTRAL = [
          old="                    i_N_local = np.where(i_N_global == I_N)[0]\n", new="                    i_N_local = np.flatnonzero(I_N == i_N_global)\n"),
     dict(id="c18-n-r4", canary=True, what="Moreau: scalar parameter through np.min and a local", file=MO,
          old="                min(self.prox_r_F[i_F]) * xi_F[i_F] - P_F[i_F],", new="                np.min(self.prox_r_F[i_F]) * xi_F[i_F] - P_F[i_F],"),]
+
+MUTANTS += [
+    dict(id="c18-r10-seed", canary=True, what="[seeded by sub-agent] Moreau: closed contacts that separate under the free velocity are dropped from the active set", file='cardillo/solver/moreau.py',
+         old='        g_Nn12 = self.system.g_N(tn12, qn12)\n        self.I_N = np.where(\n            np.logical_or(\n                g_Nn12 <= 0,\n                np.isclose(g_Nn12, np.zeros(self.system.nla_N), atol=IS_CLOSE_ATOL),\n            )\n        )[0]\n', new='        g_Nn12 = self.system.g_N(tn12, qn12)\n        xi_N_free = self.system.g_N_dot(\n            tn12, qn12, u0\n        ) + self.system.e_N * self.system.g_N_dot(tn12, qn12, un)\n        self.I_N = np.where(\n            np.logical_and(\n                np.logical_or(\n                    g_Nn12 <= 0,\n                    np.isclose(\n                        g_Nn12, np.zeros(self.system.nla_N), atol=IS_CLOSE_ATOL\n                    ),\n                ),\n                xi_N_free < 0,\n            )\n        )[0]\n', expect="C18.R10"),
+]
+NEUTRAL += [
+    dict(id="c18-n-r10", canary=True, what="Moreau: the closed-contact set is named before it is stored", file='cardillo/solver/moreau.py', old='        g_Nn12 = self.system.g_N(tn12, qn12)\n        self.I_N = np.where(\n            np.logical_or(\n                g_Nn12 <= 0,\n                np.isclose(g_Nn12, np.zeros(self.system.nla_N), atol=IS_CLOSE_ATOL),\n            )\n        )[0]\n', new='        g_Nn12 = self.system.g_N(tn12, qn12)\n        closed = np.where(\n            np.logical_or(\n                g_Nn12 <= 0,\n                np.isclose(g_Nn12, np.zeros(self.system.nla_N), atol=IS_CLOSE_ATOL),\n            )\n        )[0]\n        self.I_N = closed\n'),
+]
